@@ -6,6 +6,7 @@ mod snap;
 mod corpus;
 mod highlight;
 mod numtower;
+mod pool;
 mod reader;
 mod synrules;
 mod gen_cmd;
@@ -31,6 +32,7 @@ fn main() {
         "gen" => gen_cmd::main(&args[2..]),
         "eval" => eval_file(&args[2..]),
         "gcsnap" => gcsnap::main(&args[2..]),
+        "pool" => pool::main(&args[2..]),
         "garbage" => gcsnap::garbage_main(&args[2..]),
         "highlight" => highlight::main(&args[2..]),
         "reader" => reader::main(&args[2..]),
